@@ -218,7 +218,9 @@ func signDKLsOn[P curves.Point[P, B, S], B algebra.PrimeFieldElement[B], S algeb
 }
 
 func dklsLine[P curves.Point[P, B, S], B algebra.PrimeFieldElement[B], S algebra.PrimeFieldElement[S]](d *ecDesc[P, B, S], mult string, np namedPolicy, km *keyMat[P, S], q quorumCase, api, msgClass string) {
+	d = d.withHash("dkls" + mult + np.Name + idsName(q.ids) + api + msgClass)
 	ev := newSignEv("dkls23-"+mult, "ecdsa", d.g.name, np, km.src, q, api, msgClass)
+	ev["hash"] = d.hashName()
 	defer func() { w.Emit(ev) }()
 	if km.err != "" {
 		ev["keyErr"] = km.err
@@ -524,7 +526,9 @@ func signL17On[P curves.Point[P, B, S], B algebra.PrimeFieldElement[B], S algebr
 }
 
 func l17Line[P curves.Point[P, B, S], B algebra.PrimeFieldElement[B], S algebra.PrimeFieldElement[S]](d *ecDesc[P, B, S], np namedPolicy, key *l17Key[P, B, S], q quorumCase, api, msgClass string, comp compiler.Name, primaryFirst bool) {
+	d = d.withHash("l17" + np.Name + idsName(q.ids) + api + msgClass + string(comp))
 	ev := newSignEv("lindell17", string(comp), d.g.name, np, key.src, q, api, msgClass)
+	ev["hash"] = d.hashName()
 	defer func() { w.Emit(ev) }()
 	if key.err != "" {
 		ev["keyErr"] = key.err
